@@ -23,7 +23,7 @@ func parseRepo(repo, file string) (*ast.File, *token.FileSet, error) {
 }
 
 // condText renders an expression back to compact Go text (for shape facts).
-func nodeText(fset *token.FileSet, src []byte, n ast.Node) string {
+func nodeTextSrc(fset *token.FileSet, src []byte, n ast.Node) string {
 	return strings.Join(strings.Fields(string(src[fset.Position(n.Pos()).Offset:fset.Position(n.End()).Offset])), " ")
 }
 
@@ -124,7 +124,7 @@ func oracleFacts(repo string, emit func(name, leanDef string, err error)) {
 			return
 		}
 		src, _ := readFile(repo + "/" + file)
-		body := nodeText(fset, src, fd.Body)
+		body := nodeTextSrc(fset, src, fd.Body)
 		var got []string
 		for _, w := range wants {
 			if !strings.Contains(body, w) {
